@@ -451,6 +451,9 @@ def build_source(case, prelude: str) -> str:
         f"            if d == 'ser':\n                res[d] = observe_path(d, {ser}, VALUE, STRUCT, LEAF_SER)\n"
         f"            else:\n                res[d] = observe_path(d, {de}, WIRE, STRUCT, LEAF_DE)\n"
         "        except Exception as e:\n            res[d] = {'error': errname(e)}\n"
+        "    try:\n        from harness.props.c10_paths import real_valuations\n"
+        f"        res['vals'] = real_valuations(globals(), {ncls})\n"
+        "    except Exception as e:\n        res['vals_error'] = errname(e)\n"
         "    return res\n")
     return "\n".join(L)
 
@@ -458,6 +461,144 @@ def build_source(case, prelude: str) -> str:
 # ---------------------------------------------------------------------------------------
 # Coq encoding
 # ---------------------------------------------------------------------------------------
+
+_DISP = {}
+
+
+def _raises(f, exc):
+    try:
+        f()
+    except exc:
+        return True
+    return False
+
+
+def _load_kernel_module(fname):
+    import importlib.util
+    import os
+    import sys
+    tools = os.path.join(vlib.VERIF, "tools")
+    if tools not in sys.path:
+        sys.path.insert(0, tools)
+    sp_ = importlib.util.spec_from_file_location("vk_paths_" + fname[:-3], os.path.join(tools, "kernels", fname))
+    m = importlib.util.module_from_spec(sp_)
+    sp_.loader.exec_module(m)
+    return m
+
+
+def test_texts() -> dict:
+    """per side: the test expressions of the dispatch chains (K5D) and of the other registered handlers (K110a)"""
+    if "texts" not in _DISP:
+        import mashumaro.core.meta.types.pack as pack
+        import mashumaro.core.meta.types.unpack as unpack
+        texts = _load_kernel_module("k5d_dispatch.py").test_texts()
+        try:
+            extra = _load_kernel_module("k110a_registry.py").test_texts()
+        except Exception:  # noqa: BLE001  (K110a failed closed: the registry-walk comparison is not run then)
+            extra = {"pack": [], "unpack": []}
+        _DISP.update(texts={sd: texts[sd] + [t for t in extra[sd] if t not in texts[sd]] for sd in texts},
+                     mods={"pack": pack, "unpack": unpack}, cache={})
+    return _DISP["texts"]
+
+
+def true_tests(t, side: str, annotations=()) -> list:
+    """the tests of `side` that hold for the real type object t, evaluated with the library's own predicates in the
+    namespace of pack.py / unpack.py on a spec stand-in"""
+    import types as _types
+    from mashumaro.core.meta.helpers import get_args, get_type_origin
+    texts = test_texts()[side]
+    fake_builder = _types.SimpleNamespace(get_field_resolved_type_params=lambda name: {}, cls=object, is_nailed=True, dialect=None,
+                                          initial_type_args=(), format_name="dict", encoder=None, decoder=None)
+    sp = _types.SimpleNamespace(type=t, origin_type=get_type_origin(t), builder=fake_builder,
+                                field_ctx=_types.SimpleNamespace(name="x", metadata={}), annotations=tuple(annotations),
+                                expression="value", no_copy_collections=())
+    # one namespace: lambdas / generator expressions inside a test see only globals
+    glob = dict(_DISP["mods"][side].__dict__)
+    glob.update({"spec": sp, "args": get_args(t), "resolved_type_params": {}, "constraints": (), "evaluated": None,
+                 "method_name": "m", "method_loc": object, "_raises": _raises})
+    out = []
+    for tx in texts:
+        try:
+            if eval(tx, glob):
+                out.append(tx)
+        except Exception:  # noqa: BLE001  (a test that cannot be evaluated for this type is not reached)
+            pass
+    return out
+
+
+def valuation(t, d: str) -> str:
+    """Gallina valuation of the handler tests for the real type object t (direction d): the tests of the translated
+    chains (K5D) and handler guards (K110a) evaluated with the library's own predicates; only the tests that hold are listed."""
+    test_texts()
+    side = "pack" if d == "ser" else "unpack"
+    key = (side, repr(t))
+    if key in _DISP["cache"]:
+        return _DISP["cache"][key]
+    out = intern_valuation(true_tests(t, side))
+    _DISP["cache"][key] = out
+    return out
+
+
+_VALNAMES = {}
+
+
+def intern_valuation(tests: list) -> str:
+    """name of the Gallina definition of this valuation (each distinct valuation is written once per file: the case
+    files stay small - a coqc that needs less memory is not the first victim of a loaded machine)"""
+    lit = "memv [" + "; ".join(vlib.coq_str(x) for x in tests) + "]"
+    if lit not in _VALNAMES:
+        _VALNAMES[lit] = f"val_{len(_VALNAMES)}"
+    return _VALNAMES[lit]
+
+
+def valuation_defs() -> str:
+    return "".join(f"Definition {n} : string -> bool := {lit}.\n" for lit, n in _VALNAMES.items())
+
+
+def real_valuations(ns: dict, ncls: int) -> dict:
+    """run inside a path case's module: for its REAL classes C0..C<ncls-1> the handler tests that hold for the class
+    object itself and for the resolved declared type of each link field (child / nxt<j> / kids<j>)"""
+    import typing
+    out = {}
+    for ci in range(ncls):
+        c = ns[f"C{ci}"]
+        hints = typing.get_type_hints(c, ns, include_extras=True)
+        for side in ("pack", "unpack"):
+            out[f"{ci}:cls:{side}"] = true_tests(c, side)
+            for fname, t in hints.items():
+                if fname != "x":
+                    out[f"{ci}:{fname}:{side}"] = true_tests(t, side)
+    return out
+
+
+_STANDIN = {}
+
+
+def standin_dataclass(entry: str):
+    """a dataclass with the bases the classes of a path case have for this entry point (what the handlers registered
+    before the dataclass handler look at: the class itself, not its fields)"""
+    if entry not in _STANDIN:
+        from dataclasses import dataclass
+        from mashumaro import DataClassDictMixin
+        if entry == "codec_dc":
+            @dataclass
+            class StandIn:
+                x: int = 0
+        elif entry == "mixin_fmt":
+            class FmtMixin(DataClassDictMixin):
+                __slots__ = ()
+
+            @dataclass
+            class StandIn(FmtMixin):
+                x: int = 0
+        else:
+            @dataclass
+            class StandIn(DataClassDictMixin):
+                x: int = 0
+        StandIn.__qualname__ = "StandIn_" + entry
+        _STANDIN[entry] = StandIn
+    return _STANDIN[entry]
+
 
 def marker(slot: str) -> int:
     if slot == "F1":
@@ -477,8 +618,15 @@ def coq_sval(variant, m):
     }[variant]
 
 
-def coq_case(case, d, obs) -> str:
-    """(dir, prims tables, root ctx, path, position map, observation)"""
+def coq_case(case, d, obs, vals=None) -> str:
+    """(dir, prims tables, root ctx, path, position map, observation); vals: real_valuations of the case's real classes
+    (the valuations of class / link-field positions are computed on stand-ins of the same shape without it)"""
+    side_ = "pack" if d == "ser" else "unpack"
+
+    def rv(key, standin):
+        if vals is not None and f"{key}:{side_}" in vals:
+            return intern_valuation(vals[f"{key}:{side_}"])
+        return valuation(standin, d)
     term = Term(case["type"])
     entry, slots = case["entry"], case["slots"]
     ids = {}
@@ -546,6 +694,10 @@ def coq_case(case, d, obs) -> str:
     # path: class links first, then the type steps of the observed field
     kself, kopt, ktup = "(KObj 140)", "(KObj 141)", "(KObj 142)"
     path, posmap = [], []
+    vpath = []          # the same path with valuations instead of step kinds (xnode: PositionsV.vnode / RegistryWalk.rnode)
+    import typing as _ty
+    ns = {}
+    exec("import datetime, decimal\nfrom typing import *\n" + "\n".join(term.defs), ns)
     # root context: the first link's field of C0, or the observed field itself
     decls = []      # (decl, then the nodes that follow inside that field's type, then NField)
     ci = 0
@@ -560,33 +712,47 @@ def coq_case(case, d, obs) -> str:
     # self_list -> Tuple[Self, ...]: a tuple site is not a translated descent site; it is modelled as an element step
     term_decl = tid(term.top)
     first_decl = None
+    selfj = {}
     for k, (ln, c) in enumerate(seqs):
+        vinner = []
+        j = selfj.get(c, 0)
+        if ln in ("self_opt", "self_list"):
+            selfj[c] = j + 1
         if ln == "field":
             d0, inner = cls[c + 1], []
         elif ln == "field_coll":
             # List['C'] / Dict[str, 'C']: a collection node (exact key 160+c, origin 170/171), then its element
             d0, inner = f"(KObj {160 + c})", [f"NType TElement {cls[c + 1]}"]
+            vinner = [f"XType {rv(f'{c}:child', _ty.List[int] if coll_kind == 'list' else _ty.Dict[str, int])} {cls[c + 1]}"]
             org.append(f"((KObj {160 + c}), (KObj {170 if coll_kind == 'list' else 171}))")
         elif ln == "self_opt":
             d0, inner = kopt, [f"NType TOptional {kself}"]
+            vinner = [f"XType {rv(f'{c}:nxt{j}', _ty.Optional[_ty.Self])} {kself}"]
         else:
-            d0, inner = ktup, [f"NType TElement {kself}"]
+            d0, inner = ktup, [f"NType TTupleItem {kself}"]
+            vinner = [f"XType {rv(f'{c}:kids{j}', _ty.Tuple[_ty.Self, ...])} {kself}"]
         if first_decl is None:
             first_decl = d0
         else:
             path.append(f"NField {'true' if prev_self else 'false'} no_fieldopts {d0}")
+            vpath.append(f"XSelf {valuation(_ty.Self, d)} no_fieldopts {d0}" if prev_self
+                         else f"XData {rv(f'{c}:cls', standin_dataclass(entry))} no_fieldopts {d0}")
         path += inner
+        vpath += vinner
         prev_self = ln in ("self_opt", "self_list")
     if first_decl is None:
         first_decl = term_decl
         root_f = fopts
     else:
         path.append(f"NField {'true' if prev_self else 'false'} {fopts} {term_decl}")
+        vpath.append(f"XSelf {valuation(_ty.Self, d)} {fopts} {term_decl}" if prev_self
+                     else f"XData {rv(f'{ci}:cls', standin_dataclass(entry))} {fopts} {term_decl}")
         root_f = "no_fieldopts"
     base_len = len(path)
     for nd in term.nodes[:-1]:
         nxt = term.nodes[nd["idx"] + 1]
         path.append(f"NType {nd['step']} {tid(nxt['ann'] or nxt['ex'])}")
+        vpath.append(f"XType {valuation(ns[nd['ex']], d)} {tid(nxt['ann'] or nxt['ex'])}")
     pm = [0] * base_len + positions(term)
     # root sources: tables of C0 (its own config: the owner's when there is no field link, else decoy/none)
     root_cfg_cd, root_cfg = ("None", "[]")
@@ -607,7 +773,7 @@ def coq_case(case, d, obs) -> str:
     else:
         o = "OOther"
     return (f"({'Ser' if d == 'ser' else 'De'}, ([{'; '.join(org)}], [{'; '.join(anns)}], {flags}, [{'; '.join(cfgs)}]), "
-            f"({rootS}, {first_decl}, {cls[0]}), [{'; '.join(path)}], [{'; '.join(str(x) for x in pm)}], {o})")
+            f"({rootS}, {first_decl}, {cls[0]}), [{'; '.join(path)}], [{'; '.join(vpath)}], [{'; '.join(str(x) for x in pm)}], {o})")
 
 
 _SLOTS = None
@@ -631,9 +797,13 @@ Definition mkP (t: list (kv * kv) * list kv * list (kv * bool) * list (kv * (opt
   match t with (org, anns, fl, cf) =>
     {| p_rt := fun v => v; p_org := lk org; p_isann := fun v => existsb (kv_eqb v) anns;
        p_flags := fun v => {| g_on := false; g_ba := false; g_dl := lkb fl v; g_cx := false |}; p_cfg := lkc cf |} end.
+Definition memv (l: list string) (t: string) : bool := existsb (String.eqb t) l.
+(* a position with the valuation p of the handler tests for its type: a part of the current type / Self / a dataclass *)
+Inductive xnode := XType (p: string -> bool) (decl: kv) | XSelf (p: string -> bool) (f: fieldopts) (decl: kv)
+                 | XData (p: string -> bool) (f: fieldopts) (decl: kv).
 Definition path_case : Type :=
   dir * (list (kv * kv) * list kv * list (kv * bool) * list (kv * (option table * table))) * (sources * kv * kv)
-  * list node * list nat * pobs.
+  * list node * list xnode * list nat * pobs.
 Definition eK := KStr "value".
 Definition obs_of (pm: list nat) (r: option (nat * kv)) : pobs :=
   match r with
@@ -659,7 +829,7 @@ Definition ref_obs (d: dir) (P: prims) (c: pctx) (path: list node) (pm: list nat
 
 COQ_OK_KERNEL = """
 Definition path_ok (x: path_case) : bool :=
-  match x with (d, pt, (Sr, decl, holder), path, pm, o) =>
+  match x with (d, pt, (Sr, decl, holder), path, _, pm, o) =>
     let P := mkP pt in
     let c := {| x_S := Sr; x_ann := KNone; x_decl := decl; x_holder := holder |} in
     pobs_eqb (ref_obs d P c path pm) o &&
@@ -667,11 +837,37 @@ Definition path_ok (x: path_case) : bool :=
   end.
 """
 
+# with the dispatch kernel: the path with valuations goes through the translated dispatch chains (PositionsV.compile_v)
+COQ_OK_DISPATCHED = """
+Definition to_v (x: xnode) : vnode := match x with XType p dc => VType p dc | XSelf p f dc => VSelf p f dc | XData _ f dc => VData f dc end.
+Definition path_ok (x: path_case) : bool :=
+  match x with (d, pt, (Sr, decl, holder), path, vpath, pm, o) =>
+    let P := mkP pt in
+    let c := {| x_S := Sr; x_ann := KNone; x_decl := decl; x_holder := holder |} in
+    pobs_eqb (ref_obs d P c path pm) o &&
+    match compile d P Sr (spec_of P c) holder eK path 0 with Ok r => pobs_eqb (obs_of pm r) o | Raise _ => false end &&
+    match compile_v d P Sr (spec_of P c) holder eK (map to_v vpath) with Some (Ok r) => pobs_eqb (obs_of pm r) o | _ => false end
+  end.
+"""
+
 COQ_OK_MODEL = """
 Definition path_ok (x: path_case) : bool :=
-  match x with (d, pt, (Sr, decl, holder), path, pm, o) =>
+  match x with (d, pt, (Sr, decl, holder), path, _, pm, o) =>
     let P := mkP pt in
     let c := {| x_S := Sr; x_ann := KNone; x_decl := decl; x_holder := holder |} in
     pobs_eqb (ref_obs d P c path pm) o
+  end.
+"""
+
+# with the registry kernel: every position's site is decided by the walk of the whole translated registry (K110a + K5D)
+# on the valuation (RegistryWalk.compile_r); a dataclass position is no longer told to the model, it is dispatched
+COQ_OK_REGISTRY = COQ_OK_DISPATCHED.replace("Definition path_ok", "Definition path_ok_v") + """
+Definition to_r (x: xnode) : rnode := match x with XType p dc => RType p dc | XSelf p f dc => RField p f dc | XData p f dc => RField p f dc end.
+Definition path_ok (x: path_case) : bool :=
+  path_ok_v x &&
+  match x with (d, pt, (Sr, decl, holder), path, vpath, pm, o) =>
+    let P := mkP pt in
+    let c := {| x_S := Sr; x_ann := KNone; x_decl := decl; x_holder := holder |} in
+    match compile_r d P Sr (spec_of P c) holder eK (map to_r vpath) with Some (Ok r) => pobs_eqb (obs_of pm r) o | _ => false end
   end.
 """
